@@ -21,6 +21,9 @@
  *   p render <style> <decor> <forest> <hex>   (C09) the text of <forest> as written by the reference
  *                                     writer; the real code only takes <hex> as input
  *   p tree                            print the target
+ *   p stat                            observables of the last parse the spec does not speak about, compared with
+ *                                     the model (section C): return code, line counter, getc calls, consumed bytes;
+ *                                     behind `p node` also the number of values stored inline / buffer-backed
  *   p end                             drop the target, compare the allocation balance with the
  *                                     state at the previous `p end` (start of the script)
  *
